@@ -55,6 +55,40 @@ FACETS = {
 }
 
 
+DAMAGED_IMAGES = [
+    b"RIFF\x10\x00\x00\x00WEBPVP8 \x00\x00", b"RIFF\x10\x00\x00\x00WEBPVP8L\x00", b"RIFF\x10\x00\x00\x00WEBPVP8X\x00\x00",
+    b"II*\x00\x08\x00", b"MM\x00*\x00\x00", b"", b"\x89PNG\r\n\x1a\n\x00\x00", b"\xff\xd8\xff\xe0\x00", b"GIF89a\x01",
+    b"\x00\x00\x01\x00\x01\x00", b"<svg", b"BM\x00\x00"]
+CARD_URLS = ["/", ".", "./", "//", "..", "/nope", "/index", "/guide/", "", " ", "https://x.y", "#frag", "?q=1"]
+SYMLINKS = ["source/dangling.txt", "source/includes/dangling.rst", "source/includes/steps-dangling.yaml", "source/images/dangling.png"]
+ODD_NAMES = ['name = "two\\nlines"', 'name = ""', 'name = " "', 'name = "a/b"', 'name = ".."', 'name = "a\\\\b"']
+
+
+def cards_page(urls):
+    return "Cards\n=====\n\n.. card-group::\n   :columns: 3\n   :style: default\n\n" + "".join(
+        f"   .. card::\n      :headline: H{i}\n      :url: {u}\n\n      text\n\n" for i, u in enumerate(urls))
+
+
+def directed_projects():
+    """one small project per variant of the odd-file features (the random stream combines them with generated projects)"""
+    base = {"snooty.toml": 'name = "verif"\n', "source/index.txt": "Index\n=====\n\n.. toctree::\n\n   /cards\n\ntext\n"}
+    out = []
+    for img in DAMAGED_IMAGES:
+        for d in ("figure", "image"):
+            out.append(("damaged-image", dict(base, **{"source/images/damaged.png": img,
+                                                       "source/index.txt": base["source/index.txt"] + f"\n.. {d}:: /images/damaged.png\n   :alt: damaged\n"})))
+    for u in CARD_URLS:
+        out.append(("card-urls", dict(base, **{"source/cards.txt": cards_page([u])})))
+    for rel in SYMLINKS:
+        out.append(("dangling-symlink", dict(base, **{rel: {"symlink": "nowhere.txt"},
+                                                      "source/index.txt": base["source/index.txt"] + "\n.. include:: /includes/dangling.rst\n\n.. image:: /images/dangling.png\n   :alt: x\n"})))
+    for rel in SYMLINKS:   # a link that names itself: a loop
+        out.append(("dangling-symlink", dict(base, **{rel: {"symlink": rel.rsplit("/", 1)[-1]}})))
+    for nm in ODD_NAMES:
+        out.append(("odd-project-name", dict(base, **{"snooty.toml": nm + "\n"})))
+    return out
+
+
 def add_disk_features(rng, files: Dict[str, Any]) -> Dict[str, Any]:
     tags = []
     if rng.random() < 0.7:
@@ -87,8 +121,23 @@ def add_disk_features(rng, files: Dict[str, Any]) -> Dict[str, Any]:
             "ref: a\ncontent: 2001-13-45\n", "ref: a\ncontent: !!int abc\n", "ref: a\ncontent: 2001-12-14\n", "ref: a\ncontent: !!binary no!!\n",
             "ref: a\ncontent: !!set {a, b}\n", "title: .inf\nref: .nan\nstepnum: 1e400\ncontent: x\n", "ref: &a [*a]\n", "? [a]\n: b\n"])
         tags.append("broken-yaml")
+    if rng.random() < 0.12:
+        # a source file that is listed but cannot be read: a dangling symbolic link
+        rel = rng.choice(SYMLINKS)
+        files[rel] = {"symlink": rng.choice(["nowhere.txt", "../../outside-the-project", rel.rsplit("/", 1)[-1]])}
+        tags.append("dangling-symlink")
+    if rng.random() < 0.15:
+        # an image file that is damaged in a way the size sniffer does not expect
+        files["source/images/damaged.png"] = rng.choice(DAMAGED_IMAGES)
+        files["source/damaged-image-page.txt"] = ("Damaged\n=======\n\n.. " + rng.choice(["figure", "image"]) + ":: /images/damaged.png\n   :alt: damaged\n"
+                                                  + rng.choice(["", "   :width: 10\n"]))
+        tags.append("damaged-image")
+    if rng.random() < 0.12:
+        # card urls: the site root and urls without a file name
+        files["source/cards.txt"] = cards_page([rng.choice(CARD_URLS) for _ in range(rng.randint(1, 3))])
+        tags.append("card-urls")
     if rng.random() < 0.1 and isinstance(files.get("snooty.toml"), str) and files["snooty.toml"].startswith('name = "verif"'):
-        files["snooty.toml"] = files["snooty.toml"].replace('name = "verif"', rng.choice(['name = "two\\nlines"', 'name = ""', 'name = " "', 'name = "a/b"']), 1)
+        files["snooty.toml"] = files["snooty.toml"].replace('name = "verif"', rng.choice(ODD_NAMES), 1)
         tags.append("odd-project-name")
     return {"tags": tags}
 
@@ -97,7 +146,9 @@ def write(root: Path, files: Dict[str, Any]) -> None:
     for rel, data in sorted(files.items()):
         p = root / rel
         p.parent.mkdir(parents=True, exist_ok=True)
-        if isinstance(data, bytes):
+        if isinstance(data, dict):
+            os.symlink(data["symlink"], p)
+        elif isinstance(data, bytes):
             p.write_bytes(data)
         else:
             p.write_text(data, encoding="utf-8")
@@ -114,7 +165,10 @@ def build(files: Dict[str, Any]) -> Dict[str, Any]:
                 project = Project(tmp, backend, {}, "branch")
             except ProjectLoadError:
                 return {"exc": None, "refused": True, "pages": 0, "diagnostics": 0}   # the documented way to refuse a bad snooty.toml (C16)
+            # the command line's `create-cache` sequence: look for a cache, build, save the cache (written inside the project root)
+            project.load_cache()
             project.build(max_workers=1)
+            project.update_cache(optimize=False)
         except Exception as e:
             tb = traceback.extract_tb(e.__traceback__)
             where = next((f"{Path(f.filename).name}:{f.name}" for f in reversed(tb) if "/snooty/" in f.filename), "?")
